@@ -142,7 +142,7 @@ Definition query_guards_ok (F : facts) : bool :=
 (** every modelled panic source sits behind its guard *)
 Definition panic_ok (F : facts) : bool :=
   f_len_guard F && f_denom_guard F && f_amount_guard F && f_evm_denom_guard F && f_erc20_nul_guard F && f_supply_guard F && f_addr_conv_total F && f_local_meter F &&
-  pf_oog_deferred (f_funtoken F) && pf_oog_deferred (f_wasm F) && pf_oog_deferred (f_oracle F) && f_revert_decode_total F.
+  pf_oog_deferred (f_funtoken F) && pf_oog_deferred (f_wasm F) && pf_oog_deferred (f_oracle F) && f_revert_decode_total F && f_pair_validation_total F.
 
 (** the ABI decoder returns values within the range of their Solidity type *)
 Definition fund_wf (c : list Z * Z) : bool := (0 <=? snd c) && (snd c <? two256).
